@@ -16,7 +16,7 @@ ASSUMPTIONS = ["scheme candidates whose first character is a digit, '+', '-' or 
                "auto mode compares components through the library's own re-quoters (decided by C01-C05)"]
 
 DELIMS = ":/?#@[]\\"
-TOKENS = [":", "/", "//", "?", "#", "@", "[", "]", "\\", "[::1]", "[a:b]@", "[v1.x]@", "[::1]@", "u[:]p@", "//[a:b]@h:80", "[v1.x]", "[1.2.3.4]", "[fe80::1%25eth0]", "http", "HTTP", "hTTps", "ws", "file", "mailto", "a", "b1", "1", "+", "-", ".",
+TOKENS = [":", "/", "//", "?", "#", "@", "[", "]", "\\", "[::1]", "[a:b]@", "[v1.x]@", "foo:////x", "mailto://///a", "data:////", "u@\uff45x.com", "\ufb01le.example:8080", "u:pw@cafe\u0301.example:99", "[::1]@", "u[:]p@", "//[a:b]@h:80", "[v1.x]", "[1.2.3.4]", "[fe80::1%25eth0]", "http", "HTTP", "hTTps", "ws", "file", "mailto", "a", "b1", "1", "+", "-", ".",
           "80", ":80", ":0", ":", ":080", ":0080", ":00443", ":0443", ":021", ":000", "http://h:080", "https://u:p@[::1]:00443", " ", "\t", "\n", "\r", "\x00", "\x1f", "\x0b", "\xa0", "\u2003", "\u3000", "\x85", "\u2028", "\xe9:x", "\u0444ile:", "[v1.x]", "//[v1.x]/p", "[vF.a]:80", "%41", "%2f", "\xe9", "x-y.z", "://", "h.example", "H.Example", "u:p@", "u@", ":p@", "@@", "::", "?#", "#?", "..", "."]
 
 
@@ -57,6 +57,29 @@ def recompose_variants(scheme, auth, path, query, fragment, explicit_port):
     return out
 
 
+def _harmless_authority(auth, scheme):
+    """non-ASCII authority that nothing in the statement allows to reject: no character whose NFKC form contains a delimiter or bracket,
+    a host that IDNA 2008 (UTS46) encodes, an empty or valid decimal port, a non-empty host"""
+    import unicodedata
+    import idna
+    for ch in auth:
+        if ord(ch) > 127 and any(d in unicodedata.normalize("NFKC", ch) for d in "/?#@:[]"):
+            return False
+    user, password, host, port_text, junk = ref.split_authority(auth)
+    if junk or not host:
+        return False
+    if port_text and not (port_text.isascii() and port_text.isdigit() and int(port_text) <= 65535):
+        return False
+    if any(ord(c) < 0x21 or c in "\\" for c in auth):
+        return False
+    try:
+        if not host.isascii():
+            idna.encode(host, uts46=True)
+    except idna.IDNAError:
+        return False
+    return True
+
+
 def check_parse(ctx, backend, mode, s, order=0):
     Y = ctx.yarl(backend)
     R = ref.split(s)
@@ -73,10 +96,13 @@ def check_parse(ctx, backend, mode, s, order=0):
             # a cache-free clone: the first accessor that is read decides what gets memoised
             import pickle
             u = pickle.loads(pickle.dumps(u))
-    except ValueError:
+    except ValueError as ex:
         ctx.case(nontrivial, label=mode + "/rejected", key=(mode, s))
         if mode == "enc" and (auth is None or (auth.isascii() and "[" not in auth and "]" not in auth)):
             ctx.check(False, "encoded=True rejected an input whose authority is ASCII and bracket-free", observed="ValueError", expected="accepted", entry=mode)
+        elif auth and not auth.isascii() and "[" not in auth and "]" not in auth and _harmless_authority(auth, R["scheme"]):
+            ctx.check(False, "an authority whose non-ASCII characters are harmless (no NFKC form with a delimiter, IDNA-encodable host, valid port) was rejected",
+                      observed=ex, expected="accepted", entry=mode)
         return
     except Exception:  # noqa: BLE001  (C19's business)
         ctx.case(False, label="skipped:unexpected-exception")
